@@ -178,6 +178,13 @@ func (r *runner) runUnits(units []*unit, dump bool) []triple {
 				r.c.Add("spec_guard_discards", 1)
 				return nil
 			}
+			if res.Stage == "compile" {
+				// The compiler fails before any declaration is selected or dropped: dead-code
+				// elimination is not involved, C05 says nothing about this program (compiler
+				// failures on valid programs are decided by C01 / C04).
+				r.c.Add("programs_rejected_before_linking_not_judged", 1)
+				return nil
+			}
 			keys := []string{"compiler_rejects_valid_program"}
 			if be.Panic {
 				keys = []string{"compiler_panic"}
